@@ -669,12 +669,13 @@ class Interp:
             w0 = st.writes; n0 = len(st.pc); ne0 = len(s.ended); ev0 = len(st.events)
             res = s.run(fname, args, st, depth + 1)
             if s.merge_pure and len(res) > 1 and len(s.ended) == ne0 and all(s2.writes == w0 and len(s2.events) == ev0 and s2.brk == st.brk for s2, _ in res) \
-               and all(isinstance(rv, float) or (is_sym(rv) and not is_bool(rv)) or isinstance(rv, int) for _, rv in res):
+               and all(isinstance(rv, float) or is_sym(rv) or isinstance(rv, int) for _, rv in res):
                 isfp = any(isinstance(rv, float) or (is_sym(rv) and z3.is_real(rv)) for _, rv in res)
                 acc = None
                 for s2, rv in reversed(res):
                     cond = z3.And(*s2.pc[n0:]) if len(s2.pc) > n0 else z3.BoolVal(True)
-                    rv = toR(rv) if isfp else toI(rv, rt(I.rty).w if isinstance(rt(I.rty), IntT) else 64)
+                    isb = isinstance(rt(I.rty), IntT) and rt(I.rty).w == 1
+                    rv = toR(rv) if isfp else toB(rv) if isb else toI(rv, rt(I.rty).w if isinstance(rt(I.rty), IntT) else 64)
                     acc = rv if acc is None else z3.If(cond, rv, acc)
                 base = res[0][0]; base.pc = base.pc[:n0]
                 return [(base, acc)]
